@@ -261,7 +261,7 @@ class SuccessClient(RunnerClient):
 
     def on_event(self, ev: Event, cs: Any) -> Any:
         st, flags = cs
-        if st != "succ" or ev.kind != "call":
+        if st != "succ" or ev.kind not in ("call", "enter"):
             if ev.kind == "iter" and st == "succ":
                 return (st, flag1(flags, "loop-continues-after-success"))
             return cs
